@@ -1269,10 +1269,14 @@ pub struct AgedDirector {
     conn_tries: u32,
     /// the history was drained to a quiescent session (otherwise the pair is not compared)
     pub drained: std::rc::Rc<std::cell::Cell<bool>>,
+    reconnect: bool,
 }
 
 impl AgedDirector {
-    pub fn new(seed: u64, hist: Option<RandomDirector>, tx: usize, rx: usize,
+    /// `reconnect`: always start the capacity program on a new (resumed) connection; otherwise the
+    /// connection the history ended on is kept if it is alive (the history's CONNACKs must then
+    /// carry no limits, like the fresh twin's).
+    pub fn new(seed: u64, hist: Option<RandomDirector>, tx: usize, rx: usize, reconnect: bool,
                drained: std::rc::Rc<std::cell::Cell<bool>>) -> Self {
         let nobody = std::rc::Rc::new(std::cell::RefCell::new(Vec::new()));
         let mut cap = TwinDirector::new(seed, capacity_program(tx), TwinKind::Base, rx, nobody);
@@ -1281,7 +1285,7 @@ impl AgedDirector {
         cap.inner.broker.has_session = hist.is_some();
         let phase = if hist.is_some() { 0 } else { 2 };
         drained.set(hist.is_none());
-        Self { hist, cap, phase, conn_tries: 0, drained }
+        Self { hist, cap, phase, conn_tries: 0, drained, reconnect }
     }
 
     fn cur(&mut self) -> &mut dyn Director {
@@ -1337,6 +1341,12 @@ impl Director for AgedDirector {
             }
             1 => {
                 self.phase = 2;
+                if view.has_conn && view.live && !self.reconnect {
+                    // carry on with the connection the history ended on
+                    self.cap.connected = true;
+                    self.cap.inner.broker.connected = true;
+                    return self.top(view);
+                }
                 if view.has_conn {
                     return TopDec::DropConn;
                 }
